@@ -1,4 +1,6 @@
 import ACModel.Props.C09
+import ACModel.Props.C02
+import ACModel.Proofs.Rename
 /-
   C11 — Carving is invariant under information-preserving re-encodings
 
@@ -12,7 +14,10 @@ import ACModel.Props.C09
   counts (`Carve.Row`), so row permutations and index relabellings are invisible by construction.
   What needs proof is equivariance of `find_quantiles` under strictly increasing maps of the
   values (`x ↦ a·x + b`, `a > 0`): the boundaries are mapped, hence the partition of rows is the
-  same.  The float kernels only see counts, so they are unaffected.
+  same.  The float kernels only see counts, so they are unaffected.  Added in the second session: the
+  table a search works on depends on the multiset of rows only (`counts_perm`), and the search is
+  equivariant under an injective renaming of the base labels (`stage1_rename_equivariant`: renamed
+  tables and labels in, renamed winners out, with the same measures and verdicts).
 -/
 
 namespace C11
@@ -158,5 +163,54 @@ theorem findQuantiles_affine (a b : Rat) (ha : 0 < a) (h : Hist) (lenDf q : Nat)
     findQuantiles (mapHist (fun x => a * x + b) h) lenDf q =
       (findQuantiles h lenDf q).map (fun x => a * x + b) :=
   findQuantiles_equivariant (affine_strictMono a b ha) h lenDf q true
+
+
+/-! ## Row permutations and renamings, for the carving search -/
+section Carving
+open Carve Comb RenameLemmas
+
+/-- **Permuting the rows changes no table**: a table that counts the rows of a column counts the rows of every
+    permutation of it (the hypothesis `Counts` of the row-level theorems of C02 is about the multiset of rows). -/
+theorem counts_perm {t : List (String × Row)} {col col' : List String} (h : col.Perm col') :
+    C02.Counts t col ↔ C02.Counts t col' := by
+  unfold C02.Counts
+  constructor
+  · intro hc l; rw [← h.count_eq]; exact hc l
+  · intro hc l; rw [h.count_eq]; exact hc l
+
+/-- **The carving search is equivariant under an injective renaming of the base labels**: on the renamed tables
+    (train and dev) and the renamed labels, the search over the consecutive groupings returns exactly the renamed
+    winners — the same groups of rows, with the same measures and viability verdicts; it crashes or finds nothing
+    in exactly the same cases.  (A renaming that keeps the order of the labels, as the property says: the labels
+    are listed in the same order on both sides.) -/
+theorem stage1_rename_equivariant {ρ : String → String} (hρ : Inj ρ) (cfg : Cfg) (hns : cfg.sortGroupsByLabel = false)
+    (train : Table) (dev : Option (List (String × Row))) (labels : List String) (tol : Rat) :
+    search (candidates cfg { rows := renT ρ train.rows, tie := train.tie } (dev.map (renT ρ))
+        (consecutiveCombinations (labels.map ρ) cfg.maxNMod)) tol
+      = match search (candidates cfg train dev (consecutiveCombinations labels cfg.maxNMod)) tol with
+        | .crash => .crash
+        | .none => .none
+        | .best ws d => .best (ws.map (renCand ρ)) d := by
+  rw [consecutiveCombinations_map, candidates_ren hρ cfg hns, search_ren]
+  cases search (candidates cfg train dev (consecutiveCombinations labels cfg.maxNMod)) tol <;> rfl
+
+/-- … in particular the same features are dropped -/
+theorem stage1_rename_none {ρ : String → String} (hρ : Inj ρ) (cfg : Cfg) (hns : cfg.sortGroupsByLabel = false)
+    (train : Table) (dev : Option (List (String × Row))) (labels : List String) (tol : Rat) :
+    search (candidates cfg { rows := renT ρ train.rows, tie := train.tie } (dev.map (renT ρ))
+        (consecutiveCombinations (labels.map ρ) cfg.maxNMod)) tol = .none ↔
+    search (candidates cfg train dev (consecutiveCombinations labels cfg.maxNMod)) tol = .none := by
+  rw [stage1_rename_equivariant hρ cfg hns]
+  cases search (candidates cfg train dev (consecutiveCombinations labels cfg.maxNMod)) tol <;> simp
+
+example : Inj (fun s => s ++ "!r") := by intro a b h; simpa using h
+private def tR : Table := { rows := [("a", ⟨10, 1, 0, false⟩), ("b", ⟨10, 5, 0, false⟩), ("c", ⟨10, 9, 0, false⟩)] }
+private def cfgR : Cfg := { kind := .binary, sortBy := .cramerv, minFreqMod := 1/10, maxNMod := 3, dropna := true }
+example : (match search (candidates cfgR { rows := renT (fun s => s ++ "!r") tR.rows, tie := tR.tie } none
+      (consecutiveCombinations (["a", "b", "c"].map (fun s => s ++ "!r")) 3)) 0 with
+    | .best ws _ => ws.map (·.comb)
+    | _ => []) = [[["a!r"], ["b!r"], ["c!r"]]] := by decide +kernel
+
+end Carving
 
 end C11
